@@ -40,6 +40,13 @@ impl Disassemble for dr::Operand {
             dr::Operand::MemorySemantics(v) => v.disassemble(),
             dr::Operand::MemoryAccess(v) => v.disassemble(),
             dr::Operand::KernelProfilingInfo(v) => v.disassemble(),
+            dr::Operand::RayFlags(v) => v.disassemble(),
+            dr::Operand::FragmentShadingRate(v) => v.disassemble(),
+            dr::Operand::RawAccessChainOperands(v) => v.disassemble(),
+            dr::Operand::CooperativeMatrixOperands(v) => v.disassemble(),
+            dr::Operand::CooperativeMatrixReduce(v) => v.disassemble(),
+            dr::Operand::TensorAddressingOperands(v) => v.disassemble(),
+            dr::Operand::MatrixMultiplyAccumulateOperands(v) => v.disassemble(),
             _ => format!("{}", self),
         }
     }
@@ -197,13 +204,17 @@ impl Disassemble for dr::Module {
 fn disas_constant(inst: &dr::Instruction, type_tracker: &tracker::TypeTracker) -> String {
     debug_assert_eq!(inst.class.opcode, spirv::Op::Constant);
     debug_assert_eq!(inst.operands.len(), 1);
-    let literal_type = type_tracker.resolve(inst.result_type.unwrap());
-    match inst.operands[0] {
-        LiteralBit32(value) => disas_instruction(inst, " ", |_| {
-            disas_literal_bit_operand(value, &literal_type.unwrap())
+    // Without a known integer or float result type the literal is shown as plain bits.
+    let literal_type = match inst.result_type.and_then(|t| type_tracker.resolve(t)) {
+        Some(t) => t,
+        None => return inst.disassemble(),
+    };
+    match inst.operands.first() {
+        Some(&LiteralBit32(value)) => disas_instruction(inst, " ", |_| {
+            disas_literal_bit_operand(value, &literal_type)
         }),
-        LiteralBit64(value) => disas_instruction(inst, " ", |_| {
-            disas_literal_bit_operand(value, &literal_type.unwrap())
+        Some(&LiteralBit64(value)) => disas_instruction(inst, " ", |_| {
+            disas_literal_bit_operand(value, &literal_type)
         }),
         _ => inst.disassemble(),
     }
